@@ -10,11 +10,15 @@ import (
 )
 
 func TestCheck(t *testing.T) {
-	r := vk.New("C16")
+	prop := os.Getenv("VERIF_PROP")
+	if prop == "" {
+		prop = "C16"
+	}
+	r := vk.New(prop)
 	defer r.Done()
-	n := r.Env.N(400, 30000)
+	n := r.Env.N(1200, 30000)
 	if os.Getenv("VERIF_RACE_SUBSET") != "" {
-		n = r.Env.N(150, 3000)
+		n = r.Env.N(300, 3000)
 	}
 	for i := 0; i < n; i++ {
 		if !r.Mine(i) {
@@ -24,7 +28,7 @@ func TestCheck(t *testing.T) {
 		d := map[string]any{"workload": "upload"}
 		c := r.Begin(i, d)
 		var stats map[string]int
-		swarm.Run(t, c, "C16", func(sw *swarm.Swarm) {
+		swarm.Run(t, c, prop, func(sw *swarm.Swarm) {
 			var tr *swarm.Tor
 			tr, stats = swarm.RunUpload(sw, rng)
 			d["geo"] = tr.Geo.Desc()
